@@ -197,4 +197,134 @@ theorem pkgNameAt_agree (hV : SemverAgree) (tk : LTok) :
   | some i =>
     simp only [hV']
     cases semver (List.drop (i + 1) tk.text) <;> simp [erasePackageName]
+
+/-- what the grammar builds from the text of a package-path token -/
+def pkgPathOf (s : Str) : Option PackagePath :=
+  match (splitFirst '@' s).2 with
+  | none => some ⟨z, s, (splitFirst '/' (splitFirst '@' s).1).1, (splitFirst '/' (splitFirst '@' s).1).2.getD [], none⟩
+  | some v =>
+    match semver v with
+    | some ver => some ⟨z, s, (splitFirst '/' (splitFirst '@' s).1).1, (splitFirst '/' (splitFirst '@' s).1).2.getD [], some ver⟩
+    | none => none
+
+theorem gPackagePath_eq : gPackagePath = (class_ .packagePath >>= fun s =>
+    match pkgPathOf s with | some p => pure p | none => fail) := by
+  unfold gPackagePath pkgPathOf
+  congr; funext s
+  generalize splitFirst '@' s = p
+  obtain ⟨path, v⟩ := p
+  dsimp only
+  generalize splitFirst '/' path = q
+  obtain ⟨name, segs⟩ := q
+  cases v with
+  | none => rfl
+  | some v => dsimp only; cases semver v <;> rfl
+
+theorem mem_gPackagePath {st : PState} {x : PackagePath} {r : List STok} :
+    (x, r) ∈ gPackagePath (abs st) ↔
+      peekTok st = some .PackagePath ∧ pkgPathOf (tokAt st).text = some x ∧ r = abs (adv st) := by
+  rw [gPackagePath_eq]
+  simp only [bind_apply, List.mem_flatMap, Prod.exists, mem_class_packagePath]
+  constructor
+  · rintro ⟨s, r1, ⟨h1, rfl, rfl⟩, h2⟩
+    refine ⟨h1, ?_⟩
+    cases h : pkgPathOf (tokAt st).text <;> simp_all
+  · rintro ⟨h1, h2, rfl⟩
+    refine ⟨_, _, ⟨h1, rfl, rfl⟩, ?_⟩
+    simp [h2]
+
+/-- what the parser builds from a package-path token (`none`: the `unwrap` panic site when
+there is no `/`, or `InvalidVersion`) -/
+def pkgPathAt (tk : LTok) : Option PackagePath :=
+  match findIdx tk.text '/' with
+  | none => none
+  | some slash =>
+    match parseVersionAt tk.text tk.span (findIdx tk.text '@') with
+    | .ok v => some ⟨tk.span, tk.text, tk.text.take slash,
+        (tk.text.take ((findIdx tk.text '@').getD tk.text.length)).drop (slash + 1), v⟩
+    | .error _ => none
+
+theorem parsePackagePath_eq_ok {st st' : PState} {p : PackagePath} :
+    parsePackagePath st = .ok (p, st') ↔
+      peekTok st = some .PackagePath ∧ pkgPathAt (tokAt st) = some p ∧ st' = adv st := by
+  unfold parsePackagePath pkgPathAt
+  simp only [Except.bind_eq_ok, Prod.exists, parseToken_eq_ok]
+  constructor
+  · rintro ⟨tk, st1, ⟨h1, rfl, rfl⟩, h2⟩
+    refine ⟨h1, ?_⟩
+    cases hf : findIdx (tokAt st).text '/' with
+    | none => simp [hf] at h2
+    | some i =>
+      simp only [hf, Except.bind_eq_ok] at h2
+      obtain ⟨v, hv, h3⟩ := h2
+      cases h3
+      simp [hv]
+  · rintro ⟨h1, h2, rfl⟩
+    refine ⟨_, _, ⟨h1, rfl, rfl⟩, ?_⟩
+    cases hf : findIdx (tokAt st).text '/' with
+    | none => simp [hf] at h2
+    | some i =>
+      simp only [hf] at h2 ⊢
+      split at h2
+      · rename_i v hv
+        simp only [Except.bind_eq_ok]
+        refine ⟨v, hv, ?_⟩
+        cases h2; rfl
+      · simp at h2
+
+/-- the lexical shape of a package-path token the parser relies on: it contains a `/`, and the
+first `/` comes before the first `@` (guaranteed by the token's regular expression) -/
+def pathShape (s : Str) : Prop :=
+  ∃ i, findIdx s '/' = some i ∧ ∀ j, findIdx s '@' = some j → i < j
+
+theorem findIdx_eq_some {s : Str} {c : Char} {i : Nat} :
+    findIdx s c = some i ↔ (s.takeWhile (· != c)).length = i ∧ i < s.length := by
+  unfold findIdx
+  dsimp only
+  split
+  · simp; intro h; omega
+  · simp; intro h; omega
+
+theorem findIdx_lt {s : Str} {c : Char} {i : Nat} (h : findIdx s c = some i) : i < s.length :=
+  (findIdx_eq_some.mp h).2
+
+theorem takeWhile_take {α} (p : α → Bool) (s : List α) (j : Nat) (h : (s.takeWhile p).length < j) :
+    (s.take j).takeWhile p = s.takeWhile p := by
+  induction s generalizing j with
+  | nil => simp
+  | cons a l ih =>
+    cases j with
+    | zero => simp at h
+    | succ j =>
+      simp only [List.take_succ_cons, List.takeWhile]
+      cases hp : p a with
+      | false => rfl
+      | true =>
+        simp only [List.takeWhile, hp, List.length_cons] at h
+        rw [ih j (by omega)]
+
+theorem findIdx_take {s : Str} {c : Char} {i j : Nat} (h : findIdx s c = some i) (hij : i < j)
+    (hj : j ≤ s.length) : findIdx (s.take j) c = some i := by
+  obtain ⟨hi, hl⟩ := findIdx_eq_some.mp h
+  rw [findIdx_eq_some, takeWhile_take _ _ _ (by omega)]
+  simp [hi]
+  omega
+
+theorem pkgPathAt_agree (hV : SemverAgree) (tk : LTok) (hs : pathShape tk.text) :
+    (pkgPathAt tk).map erasePackagePath = pkgPathOf tk.text := by
+  have hV' : ∀ v, parseVersion v = semver v := hV
+  obtain ⟨i, hi, hij⟩ := hs
+  unfold pkgPathAt pkgPathOf parseVersionAt
+  rw [splitFirst_eq_findIdx '@']
+  cases hat : findIdx tk.text '@' with
+  | none =>
+    simp only [hi, splitFirst_eq_findIdx '/']
+    simp [erasePackagePath]
+  | some j =>
+    have hlt := hij j hat
+    have hj := findIdx_lt hat
+    simp only [hi, hV', splitFirst_eq_findIdx '/', findIdx_take hi hlt (Nat.le_of_lt hj)]
+    cases semver (List.drop (j + 1) tk.text) <;> simp [erasePackagePath, List.take_take]
+    omega
+
 end Wac.C12
